@@ -518,3 +518,43 @@ def cross_package_map(ctx, rule):
             else:
                 rule.fail('%s.copy_like' % cname, 'cross-package-by-position', 'on a path where the two property packages differ, %s moves values by position, not through the CAS '
                           'index map returned by index_overlap: chemicals land on other species' % src(e.stmt)[:90], f, e.stmt)
+    # the stream-level entry points hand the material over either to the indexers' copy_like (decided above) or, as a shortcut, copy a
+    # raw flow vector by position: the shortcut needs the packages to be the same object on that path
+    for cname, rel in (('Stream', ST), ('MultiStream', MS)):
+        f = prog.cls(cname, rel).methods.get('copy_like')
+        if f is None:
+            continue
+        o_ = f.params[1]
+        ps, _ = run_paths(f.node, max_paths=4000)
+        from ..pathcond import implied2 as _imp2, resolved_conds as _rcs
+        CH = {'self.chemicals', 'self._chemicals', 'self._imol._chemicals', 'self._imol.chemicals', 'self.imol.chemicals'}
+        CH |= {x.replace('self', o_, 1) for x in CH}
+
+        def _pk2(t, ops):
+            return isinstance(t, ast.Compare) and len(t.ops) == 1 and isinstance(t.ops[0], ops) and {src(t.left), src(t.comparators[0])} <= CH \
+                and src(t.left).split('.')[0] != src(t.comparators[0]).split('.')[0]
+        verdict = {}
+        for p in ps:
+            if p.raised:
+                continue
+            same = _imp2(_rcs(p, keep=set(f.params)), lambda t: _pk2(t, ast.Is), lambda t: _pk2(t, ast.IsNot))
+            for e in p.events:
+                if e.kind != 'call' or not e.target.endswith('.copy_like'):
+                    continue
+                recv = e.target[:-len('.copy_like')]
+                if 'thermal_condition' in recv:
+                    continue
+                raw = recv not in ('self._imol', 'self.imol')
+                key = (e.stmt.lineno, recv)
+                okk = (not raw) or same is True
+                prev = verdict.get(key)
+                verdict[key] = (okk and (prev[0] if prev else True), e, raw)
+        if not verdict:
+            raise AnalysisError('%s.copy_like: no material transfer found' % cname)
+        for key, (okk, e, raw) in sorted(verdict.items()):
+            if okk:
+                rule.ok('%s.copy_like' % cname, ('raw flow vector copied by position only where both streams use the same package object: %s' if raw else
+                                                 'material handed to the package-aware indexer copy: %s') % src(e.stmt)[:80], f, e.stmt)
+            else:
+                rule.fail('%s.copy_like' % cname, 'cross-package-by-position', '%s copies a raw flow vector by position on a path where the two streams may use different '
+                          'property packages (no `chemicals is` test holds there): chemicals land on other species' % src(e.stmt)[:90], f, e.stmt)
